@@ -266,7 +266,7 @@ theorem spec_moveRest (env : PEnv) (src dst : Maildir) (ms : MsgSt) (sh dh : Han
   · exact ⟨k, by intro h; cases h⟩
   rename_i fl _
   refine wp_bind_mono (spec_gen env dst (some fl) dh pd hdh _ hpd (fun w' h => k.of_same h)
-    (fun wk n h _ => (k.of_same h).step _ _ (fun _ _ _ _ _ _ => trivial) (fun _ _ => trivial)) 4096 _ (SameFs.refl w)) ?_
+    (fun wk n h _ => (k.of_same h).step _ _ (fun _ _ _ _ _ _ => trivial) (fun _ _ => trivial)) gennameAttempts _ (SameFs.refl w)) ?_
   rintro g w2 (⟨rfl, hs⟩ | ⟨wk, c, hs, -, -, hl, rfl, rfl⟩)
   · exact ⟨k.of_same hs, by intro h; cases h⟩
   dsimp only
@@ -580,7 +580,11 @@ theorem decimal_inj {a b : Nat} (h : decimal a = decimal b) : a = b := by
   subst h
   rw [← va, vb]
 
-theorem cand_inj {env : PEnv} {flags : Option Bytes} {a b : Nat} (h : cand env flags a = cand env flags b) : a = b := by
+theorem gennameWrap_eq : gennameWrap = 4294967296 := by decide
+
+/-- Two counter values give the same name iff they are congruent modulo `2 ^ 32` (`%u` of an `unsigned int`). -/
+theorem cand_inj {env : PEnv} {flags : Option Bytes} {a b : Nat} (h : cand env flags a = cand env flags b) :
+    a % gennameWrap = b % gennameWrap := by
   unfold cand at h
   simp only [List.append_assoc, List.append_cancel_left_eq] at h
   have hlen := congrArg List.length h
@@ -620,9 +624,10 @@ theorem mem_names_of_lookup {w : World} {p n : Bytes} {es : List (Bytes × Nat)}
   simp only [beq_iff_eq] at h2
   exact List.mem_map.2 ⟨e, h1, h2⟩
 
-/-- A directory with `|es|` entries leaves one of any `|es| + 1` consecutive candidates free. -/
+/-- A directory with `|es| < 2 ^ 32` entries leaves one of any `|es| + 1` consecutive candidates free. -/
 theorem exists_free (env : PEnv) (flags : Option Bytes) (count : Nat) {w : World} {p : Bytes} {es : List (Bytes × Nat)}
-    (hd : w.dir p = some es) : ∃ j, j ≤ es.length ∧ w.lookup p (cand env flags (count + 1 + j)) = none := by
+    (hd : w.dir p = some es) (hW : es.length < gennameWrap) :
+    ∃ j, j ≤ es.length ∧ w.lookup p (cand env flags (count + 1 + j)) = none := by
   apply Classical.byContradiction
   intro hno
   have hall : ∀ j, j ≤ es.length → (w.lookup p (cand env flags (count + 1 + j))).isSome := by
@@ -631,8 +636,9 @@ theorem exists_free (env : PEnv) (flags : Option Bytes) (count : Nat) {w : World
     | none => exact absurd ⟨j, hj, hl⟩ hno
     | some _ => rfl
   refine pigeon es.length (es.map (·.1)) (fun j => cand env flags (count + 1 + j)) (by simp) ?_ ?_
-  · intro i j _ _ hij
+  · intro i j hi hj hij
     have := cand_inj hij
+    rw [gennameWrap_eq] at this hW
     omega
   · intro j hj
     exact mem_names_of_lookup hd (hall j hj)
@@ -695,6 +701,7 @@ theorem move_mtime_not_set (env : PEnv) (src dst : Maildir) (ms : MsgSt) (w : Wo
 theorem genname_fresh (env : PEnv) (md : Maildir) (flags : Option Bytes) (w : World) (d : Handle) (p : Bytes)
     (es : List (Bytes × Nat)) (fuel count i : Nat) (hist : List World)
     (hd : md.dirH = some d) (hp : w.dirPath d = some p) (hes : w.dir p = some es) (hfuel : es.length + 1 ≤ fuel)
+    (hW : es.length < gennameWrap)
     (hfit : ∀ j, j ≤ es.length → (cand env flags (count + 1 + j)).length < NAME_MAX1) :
     ∃ h name, (runPlan Plan.none (genname env md flags fuel count) w i hist).1 = some (h, name) ∧
       w.lookup p name = none ∧
@@ -705,7 +712,7 @@ theorem genname_fresh (env : PEnv) (md : Maildir) (flags : Option Bytes) (w : Wo
         (runPlan Plan.none (genname env md flags fuel count) w i hist).2.1.lookup q m = some fid) ∧
       (runPlan Plan.none (genname env md flags fuel count) w i hist).2.2.length ≤
         hist.length + presentCount env flags w p count fuel + 1 := by
-  obtain ⟨j, hj, hfree⟩ := exists_free env flags count hes
+  obtain ⟨j, hj, hfree⟩ := exists_free env flags count hes hW
   obtain ⟨wk, c, hs, h1, h2, h3, h4, h5, h6, h7⟩ := genname_free env md flags d p hd fuel count w i hp
     ⟨j, by omega, hfree, fun j' hj' => hfit j' (by omega)⟩
   have cr := created_of_openExcl (by rw [hs.dirPath]; exact hp) h3
